@@ -154,7 +154,7 @@ def run(res: Results, idx: Index, tier: str) -> None:
     res.rule("R-C18e", "every validation session is built afresh from the model path of the current call", floor=4)
     rule_e(res, idx)
     res.rule("R-C18a", "count, shape and value comparisons are on every path to a match verdict, each with a False-returning failure branch", floor=4)
-    res.rule("R-C18b", "no operand of a value comparison is cast to the other operand's dtype without a same-kind test", floor=2)
+    res.rule("R-C18b", "no operand of a value comparison is cast to the other operand's dtype without a same-kind test", floor=1)
     res.rule("R-C18c", "allclose compares under _temporary_x64", floor=1)
     res.rule("R-C18d", "every ORT session input is fed or the helper raises; surplus positional inputs raise", floor=2)
     res.assumptions += ["ONNX Runtime execution and the tolerance arithmetic of numpy.allclose are not decided"]
@@ -220,8 +220,33 @@ def run(res: Results, idx: Index, tier: str) -> None:
     else:
         res.violation("R-C18a", f"{UI}:{loop.lineno}", key, "an output can be accepted without its shape being compared (numpy broadcasting would hide a shape deviation)", f.qualname)
     key = f"{UI}::_run_allclose::value-comparison"
-    if cmp_ifs and iteration_must_pass([(n, "F") for s, _ in cmp_ifs for n in g.nodes_of(s)]):
-        res.ok("R-C18a", f"{UI}:{cmp_ifs[0][0].lineno}", key, f"every iteration passes one of {len(cmp_ifs)} value comparisons whose failure returns (False, …)", f.qualname)
+    # hand-written tolerance tests: `if not (diff <= bound).all(): return False` rejects NaN (sound, if strict);
+    # `if (diff > bound).any(): return False` accepts it (every ordered comparison with NaN is False)
+    tnames0 = names_in(loop.target)
+    hand_ok, hand_blind = [], []
+    for n in body_ifs:
+        if not _returns_false_tuple(n.body) or n in shape_ifs or any(n is s_ for s_, _ in cmp_ifs):
+            continue
+        exprs = [n.test] + [v for nm in du.closure(names_in(n.test)) for v in du.values(nm)]
+        cmps = [x for e in exprs for x in ast.walk(e) if isinstance(x, ast.Compare) and len(x.ops) == 1 and isinstance(x.ops[0], (ast.Gt, ast.GtE, ast.Lt, ast.LtE))
+                and du.derived_from(x.left, tnames0)]
+        if not cmps:
+            continue
+        reducers = {(c.func.attr if isinstance(c.func, ast.Attribute) else (call_name(c) or "")).split(".")[-1] for e in exprs for c in ast.walk(e) if isinstance(c, ast.Call)}
+        negated = isinstance(n.test, ast.UnaryOp) and isinstance(n.test.op, ast.Not)
+        upper = isinstance(cmps[0].ops[0], (ast.Gt, ast.GtE))
+        if upper and "any" in reducers and not negated:
+            hand_blind.append((n, cmps[0]))
+        elif not upper and "all" in reducers and negated:
+            hand_ok.append((n, cmps[0]))
+    all_cmp_ifs = [s_ for s_, _ in cmp_ifs] + [n for n, _ in hand_ok]
+    if all_cmp_ifs and iteration_must_pass([(n, "F") for s_ in all_cmp_ifs for n in g.nodes_of(s_)]):
+        res.ok("R-C18a", f"{UI}:{all_cmp_ifs[0].lineno}", key, f"every iteration passes one of {len(all_cmp_ifs)} value comparisons whose failure returns (False, …)", f.qualname)
+    elif hand_blind:
+        n, cm = hand_blind[0]
+        res.violation("R-C18a", f"{UI}:{n.lineno}", key, f"the float outputs are compared by `{src(cm, 60)}` reduced with any(): every ordered comparison with NaN is False (and inf > inf is False), so a model output that is NaN / Inf where the reference is finite is reported as a match", f.qualname)
+    elif not all_cmp_ifs and any(_returns_false_tuple(n.body) and n not in shape_ifs and du.derived_from(n.test, tnames0) for n in body_ifs if not (isinstance(n.test, ast.Compare) and any(isinstance(x, ast.Attribute) and x.attr in ("shape", "dtype") for x in ast.walk(n.test)))):
+        res.unresolved("R-C18a", f"{UI}:{loop.lineno}", key, "outputs are compared by a construct the checker does not recognise (neither np.allclose / array_equal nor a reducible ordered comparison)", f.qualname)
     else:
         res.violation("R-C18a", f"{UI}:{loop.lineno}", key, "an output can be accepted without np.allclose / np.array_equal having been evaluated on it", f.qualname)
     # operands of each comparison are the loop's expected / got values
